@@ -46,10 +46,78 @@ def not_list(st: PState, m: str) -> str:
     return ""
 
 
+def skip_reason(st: PState, m: str, ids) -> tuple:
+    """Why a path that received `m` may go round the loop again without returning it: a literal on the path that a
+    matching response (id equal, no method, not a list) cannot satisfy.  Returns (reason, opaque literals)."""
+    idx = (f"getattr({m}, 'id', None)", f"{m}.id")
+    meth = (f"getattr({m}, 'method', None)", f"{m}.method")
+    opaque = []
+    for l in sorted(st.lits):
+        if m not in l:
+            continue
+        try:
+            n = ast.parse(l, mode="eval").body
+        except SyntaxError:
+            opaque.append(l)
+            continue
+        neg = isinstance(n, ast.UnaryOp) and isinstance(n.op, ast.Not)
+        core = n.operand if neg else n
+        txt = ast.unparse(core)
+        if isinstance(core, ast.Compare) and len(core.ops) == 1:
+            a, b, op = ast.unparse(core.left), ast.unparse(core.comparators[0]), core.ops[0]
+            for x, y in ((a, b), (b, a)):
+                if x == m and y == "None" and isinstance(op, ast.Is):
+                    return l, opaque  # nothing was received: None is not a response
+                if x in idx and isinstance(op, ast.NotEq) and (not ids or y in ids):
+                    return l, opaque
+                if x in meth and ((isinstance(op, ast.IsNot) and y == "None") or (isinstance(op, ast.Eq) and y != "None" and y[:1] in "'\"") or (isinstance(op, ast.In) and x == a)):
+                    return l, opaque
+            continue
+        if not neg and (txt in meth or txt == f"hasattr({m}, 'method')"):
+            return l, opaque
+        if isinstance(core, ast.Call) and call_name(core) == "isinstance" and len(core.args) == 2 and ast.unparse(core.args[0]) == m:
+            types = ast.unparse(core.args[1])
+            respish = "Response" in types or "Error" in types
+            if not neg and ("list" in types or not respish):
+                return l, opaque
+            if neg and respish and "Request" not in types and "Notification" not in types:
+                return l, opaque
+            continue
+        if isinstance(core, ast.Call) and call_name(core) not in ("getattr", "hasattr", "isinstance", "bool", "len") and not call_name(core).startswith(("getattr(", "(")):
+            opaque.append(l)
+    return "", opaque
+
+
+def skipped_messages(W, ids, R):
+    """One entry per distinct way the wait loop goes round again after a receive() that completed:
+    (reason the message cannot be the awaited response or '', what is known about it, what else is known)."""
+    backs = [st for lp, st in getattr(W.an, "back_states", []) if lp is W.loop]
+    R.need(backs, "anchor: the wait loop has no back edge")
+    seen = set()
+    res = []
+    for st in backs:
+        ms = _sendmsg.msg_terms(st, W.msg_term_prefix)
+        if not ms:
+            continue  # nothing was received in this iteration (the poll interval ran out)
+        m = ms[0]
+        why, opaque = skip_reason(st, m, ids)
+        key = (why, tuple(opaque)) if why else tuple(sorted(l for l in st.lits if m in l))
+        if key in seen:
+            continue
+        seen.add(key)
+        if not why and opaque:
+            raise AnalysisError(f"{W.wait.module.rel}: a received message is skipped under a test outside the readable fragment ({opaque[0][:80]})")
+        about = sorted(l.replace(m, "<msg>")[:70] for l in st.lits if m in l)
+        others = sorted(l[:50] for l in st.lits if m not in l)[:6]
+        res.append((why.replace(m, "<msg>"), about, others))
+    return res
+
+
 def check(P: Project, R: Report) -> None:
     R.rule("R1", "every path from receive() to a return of the wait loop carries, on the received object: id == <the id the request was built with>, not a list, no method; the returned value derives from that object only")
     R.rule("R2", "on every path reaching the wait, exactly one write_stream.send(request) happened before, outside any loop, with request = create_request(method=<method param>, params=<params param>, id=<the awaited id>)")
     R.rule("R3", "the wait loop has no exit other than the R1 return and raises (no break, no default return, cannot fall off)")
+    R.rule("R5", "every path that completes a receive() and goes round the wait loop again carries a test the matching response cannot pass (other id, a method, a list): the first matching response is never taken off the stream and dropped")
     R.rule("R4", "every typed send_* helper awaits send_message exactly once per returning path on its own two stream parameters and its result derives from that call")
     W = _sendmsg.analyse(P)
     R.fn(W.send.fq, W.wait.fq)
@@ -84,6 +152,14 @@ def check(P: Project, R: Report) -> None:
         names = {n.id for n in ast.walk(ast.parse(ret, mode="eval")) if isinstance(n, ast.Name)} if node.value is not None else set()
         funcs = {call_name(c).split(".")[0] for c in ast.walk(ast.parse(ret, mode="eval")) if isinstance(c, ast.Call)} if node.value is not None else set()
         R.ob("R1", "returned value derives from the matched message only", m in names and names - funcs <= {m}, where, f"returns `{ret}`")
+    # ------------------------------------------------------------------ R5: nothing but a non-match is skipped
+    n_skips = 0
+    for why, about, others in skipped_messages(W, id_params, R):
+        n_skips += 1
+        R.ob("R5", "a received message goes unanswered only for a reason a matching response cannot have", bool(why), f"{wrel}:{W.recv_assign.lineno}",
+             f"the loop goes round again after `{ast.unparse(W.recv_assign)[:60]}` completed, with " + (f"only {about} known about the message" if about else f"nothing tested on the message (path: {others})") + ": a response bearing the awaited id is taken off the stream and dropped",
+             sample=f"R5 {W.wait.qual}: skip because `{why[:70]}`")
+    R.extra["skip_paths"] = n_skips
     R.ob("R3", "wait function cannot fall off the end", not out.normal, W.wait.where, "a path leaves the loop without returning (break / loop condition)")
     breaks = [n for n in walk_local(W.loop) if isinstance(n, ast.Break)]
     inner_loops = [l for l in walk_local(W.loop) if isinstance(l, (ast.For, ast.While, ast.AsyncFor)) and l is not W.loop]
